@@ -50,12 +50,19 @@ class Baton(object):
             out.append(tid)
         return sorted(out)
 
+    STALL_S = 30.0      # a thread that was given the baton must park or finish within this wall-clock time
+
     def drive(self, max_steps=200000):
+        import time as _time
         steps = 0
         with self.mu:
             while True:
+                t0 = _time.monotonic()
                 while self.running is not None:
-                    self.mu.wait()
+                    self.mu.wait(1.0)
+                    if self.running is not None and _time.monotonic() - t0 > self.STALL_S:
+                        raise Deadlock("thread %r was scheduled and neither reached a yield point nor finished within %.0f s: it is blocked outside the "
+                                       "scheduler (e.g. on a lock the harness does not control) or loops without I/O" % (self.running, self.STALL_S))
                 if len(self.finished) == len(self.tids):
                     return
                 if len(self.parked) + len(self.finished) < len(self.tids):
@@ -151,6 +158,24 @@ class SchedLock(object):
 
     def release(self):
         self.__exit__()
+
+
+def adopt_locks(baton, objs, known=("_transport_lock", "_store_lock", "_local_id_lock"), tid_of=None):
+    """Any OTHER lock the objects under test carry (a change to the library may add one) becomes scheduler-aware too: blocking on a lock the
+    baton does not know would freeze the schedule instead of handing the baton on.  Returns the names adopted."""
+    real = (type(threading.Lock()), type(threading.RLock()))
+    out = []
+    for o in objs:
+        for name, val in list(vars(o).items()):
+            if name in known:
+                continue
+            if tid_of is None and isinstance(val, real):
+                setattr(o, name, SchedLock(baton, name))
+                out.append(name)
+            elif tid_of is not None and isinstance(val, asyncio.Lock):
+                setattr(o, name, AsyncSchedLock(baton, name, tid_of))
+                out.append(name)
+    return out
 
 
 def line_tracer(baton, code_objects, follow=None, files=()):
